@@ -5,6 +5,7 @@ package checks
 import (
 	_ "verif/checks/c01"
 	_ "verif/checks/c06"
+	_ "verif/checks/c09"
 	_ "verif/checks/c11"
 	_ "verif/checks/c12"
 	_ "verif/checks/c13"
